@@ -330,6 +330,13 @@ func (r *rewriter) isChanExpr(e ast.Expr) bool {
 		return r.chanNames[x.Sel.Name]
 	case *ast.ParenExpr:
 		return r.isChanExpr(x.X)
+	case *ast.CallExpr:
+		// time.After(d): a channel of the modelled clock
+		if se, ok := x.Fun.(*ast.SelectorExpr); ok && se.Sel.Name == "After" {
+			if id, ok := se.X.(*ast.Ident); ok && id.Name == "time" {
+				return true
+			}
+		}
 	}
 	return false
 }
@@ -361,7 +368,7 @@ func (r *rewriter) file(f *ast.File, name string) {
 				if se, ok := n.(*ast.SelectorExpr); ok {
 					if id, ok := se.X.(*ast.Ident); ok && id.Name == "time" {
 						switch se.Sel.Name {
-						case "After", "NewTimer", "NewTicker", "Tick", "AfterFunc", "Sleep":
+						case "NewTimer", "NewTicker", "Tick", "AfterFunc":
 							r.cannot(n, "time."+se.Sel.Name+" is not modelled")
 						}
 					}
